@@ -1274,6 +1274,34 @@ class Interp:
             sty = norm_ty(fn0.impl["self_ty"]) if fn0 is not None and fn0.impl is not None else ""
             m2 = re.match(r"Vec<(.*)>$", sty)
             elem = H("payload", "self[]", enum=None, ty=m2.group(1) if m2 else None, of="self", elem_of=coll)
+        # a record value the body changes field by field (`call.template.push_str(..)`, `acc.args.push(..)`, a `&mut self` method
+        # of the record) accumulates in each of its fields: for the duration of the analysis every field of such a local is a
+        # local of its own (`name§field`); they are put together again when the loop is done
+        exploded = {}
+        for k_, v_ in list(st.env.items()):
+            if isinstance(v_, dict) and v_.get("v") == "struct" and not k_.startswith("__") and "§" not in k_ and self._mentions(e["body"], k_):
+                exploded[k_] = v_
+                for f_, fv_ in v_["fields"].items():
+                    st.env["%s§%s" % (k_, f_)] = fv_
+
+        def implode(state):
+            for k_, v_ in exploded.items():
+                flds = {}
+                for f_ in v_["fields"]:
+                    pv = state.env.pop("%s§%s" % (k_, f_), None)
+                    flds[f_] = pv if pv is not None else v_["fields"][f_]
+                cur = state.env.get(k_)
+                if isinstance(cur, dict) and cur.get("v") == "struct":
+                    state.env[k_] = dict(cur, fields=flds)
+
+        try:
+            return self._for_symbolic_inner(e, st, coll, idx, elem, exploded, implode)
+        finally:
+            for k_, v_ in exploded.items():
+                for f_ in v_["fields"]:
+                    st.env.pop("%s§%s" % (k_, f_), None)
+
+    def _for_symbolic_inner(self, e, st, coll, idx, elem, exploded, implode):
         base = st.fork()
         base.conds = ()
         base.effects = []
@@ -1313,12 +1341,29 @@ class Interp:
                     break
         filtered = []
 
+        def enter(body_start):
+            # the record as the body sees it: its fields are the field-locals (possibly the "carried" ones)
+            for k_, v_ in exploded.items():
+                body_start.env[k_] = dict(v_, fields={f_: body_start.env.get("%s§%s" % (k_, f_), fv_) for f_, fv_ in v_["fields"].items()})
+
+        def leave(results):
+            # what the body left in the record goes back to the field-locals; the record itself counts as unchanged
+            for s2, _ in results:
+                for k_, v_ in exploded.items():
+                    cur = s2.env.get(k_)
+                    if isinstance(cur, dict) and cur.get("v") == "struct" and cur.get("name") == v_.get("name"):
+                        for f_ in v_["fields"]:
+                            s2.env["%s§%s" % (k_, f_)] = cur["fields"].get(f_)
+                        s2.env[k_] = snap_env[k_]
+            return results
+
         def run_body(start_env):
             results = []
             del filtered[:]
             if compose is None:
                 body_start = base.fork()
                 body_start.env.update(start_env)
+                enter(body_start)
                 self.bind_pattern(e["pat"], elem, body_start)
                 if idx is not None:
                     body_start.env[idx] = H("index", idx, of=coll)
@@ -1330,12 +1375,13 @@ class Interp:
                         continue
                     body_start = base.fork()
                     body_start.env.update(start_env)
+                    enter(body_start)
                     body_start.conds = tuple(c0)
                     self.bind_pattern(e["pat"], v0["x"] if compose == "filter_map" else v0, body_start)
                     if idx is not None:
                         body_start.env[idx] = H("index", idx, of=coll)
                     results += self.ev(body_, body_start)
-            return results
+            return leave(results)
 
         def analyse(results, start_env):
             # which accumulators changed, and by what, on each path of the body
@@ -1485,6 +1531,8 @@ class Interp:
             b.conds = b.conds + tuple(("∃" + str(c0[0]), c0[1]) for c0 in cnd)
             b.ret = rv
             res.append((b, {"v": "never"}))
+        for s_, _ in res:
+            implode(s_)
         return res
 
     def _mentions(self, node, name):
@@ -1655,6 +1703,8 @@ class Interp:
             return "bool"
         if k == "str":
             return "&str"
+        if k == "struct" and v.get("name"):
+            return v["name"]
         ev_ = self.as_enumval(v)
         if ev_ is not None:
             return ev_[0]
@@ -2056,7 +2106,7 @@ class Interp:
             # fmt::Write::write_str on a String (or a formatter modelled as one) appends and cannot fail
             res_ = self.ev({"k": "mcall", "l": e.get("l"), "recv": e["recv"], "m": "push_str", "targs": [], "args": [e["args"][0]]}, st)
             return [(s1, {"v": "okunit"}) for s1, _ in res_]
-        if m == "to_string" and not argv and k == "hole":
+        if m == "to_string" and not argv and k in ("hole", "struct"):
             dt_ = self.display_text(rv, st)
             if dt_ is not None:
                 return [(s3, S(parts_)) for s3, parts_ in dt_]
